@@ -3,5 +3,10 @@ claim("C17", "boundary evaluation of the ASCII predicate (go/constant), SSA shap
       "Necessary structural conditions of the normalisation laws, decided on every run over the current source: IsASCII predicate evaluated at U+007F/U+0080; Equal is a==b || F(a)==F(b) with F=ForLookup on both sides (gives reflexive/symmetric/transitive and 'coincides with key equality' by construction); key functions pure (no mutable global, clock, environment in their maddy call cone); every success value passed IDNA-decode → NFC → lower-casing in that order; Split is complementary. The value-level laws (idempotence, variant collapse, round trips) are not decided.",
       "trusts go/types, go/ssa (x/tools v0.29.0) and the documented behaviour of idna.ToUnicode, norm.NFC.String, strings.ToLower", "DESIGN.md §3 C17")
 
-for _id in ["C01","C02","C03","C04","C05","C06","C07","C09","C10","C11","C12","C13","C14","C15","C16","C18","C19","C20"]:
+for _id in ["C01","C02","C03","C04","C05","C06","C07","C09","C10","C11","C12","C13","C14","C15","C18","C19","C20"]:
     PENDING[_id] = "static check designed in DESIGN.md §3 but not yet built in this round; not claimed until its check exists and is quiet on the unchanged tree"
+
+claim("C16", "enumeration of all SMTP error literals and field maps with abstract path evaluation (go/cfg + go/constant) of their code classes; path evaluation of the two code helpers; reader/writer type agreement of the error field map; SSA provenance of the reply text; boundary evaluation of the ASCII mask",
+      "Decides, for every SMTPError / smtp_code literal and helper in the current tree (a finite, fully enumerated set: the property quantifies over 'all SMTP error literals and helper-computed codes in the source tree'), that basic and enhanced code classes agree on every acyclic path of the enclosing function; that SMTPCode/SMTPEnchCode follow the temporariness predicate; that the converters' default pairs agree with the predicate that drives retry; that every Fields(err)[K].(T) reader has a writer of type T; that err.Error() never reaches the reply text; and that the non-SMTPUTF8 mask starts at U+0080. Not decided: run-time composition of fields from different wrappers.",
+      "trusts go/types, go/cfg, go/ssa; A1 (go-smtp derives class.0.0 from EnhancedCodeNotSet)", "DESIGN.md §3 C16")
+PENDING.pop("C16", None)
